@@ -44,7 +44,12 @@ Tasks(s) ==
          \cup {[op |-> "verdict_double", n |-> sz, outlen |-> ol, out |-> DoubleVerdict(ol, sz)] : sz \in {1, 2, 3, 4, 6, 8}, ol \in {1, 2, 3, 4, 8, 12, 16}}
 \* size / capacity boundaries of the deployed fields (verdicts only)
 BigSizes == {Pow2(19) - 1, Pow2(19), Pow2(19) + 1, Pow2(20) - 1, Pow2(20), Pow2(20) + 1, Pow2(21), 3, 1, 0 + 2}
+\* doubling / Lagrange multiplication of n evaluations into 2n at the capacity boundary (n = 2^19 is the largest supported size);
+\* the evaluations of a constant polynomial double to the same constant, whatever the size
 InitBig == st \in {[op |-> "verdict_big", n |-> sz, outlen |-> sz - d, sets |-> ss, out |-> NttVerdict(sz - d, sz, ss)] : sz \in BigSizes, d \in {0, 1}, ss \in {TRUE, FALSE}}
+                 \cup {[op |-> "verdict_double_big", n |-> sz, outlen |-> 2 * sz, sets |-> FALSE, out |-> DoubleVerdict(2 * sz, sz)] :
+                          sz \in {Pow2(17), Pow2(18), Pow2(19), Pow2(20)}}
+                 \cup {[op |-> "verdict_double_big", n |-> Pow2(19), outlen |-> Pow2(20) - 1, sets |-> FALSE, out |-> DoubleVerdict(Pow2(20) - 1, Pow2(19))]}
 Next == "inp" \notin DOMAIN st /\ "out" \notin DOMAIN st /\ st' \in Tasks(st)
 
 \* the definitions are mutually consistent (guards the oracle): inverse undoes forward; the forward
